@@ -405,6 +405,64 @@ def semgrep_reader(r1: Tuple[int, int, int, int, int, int], r2: Tuple[int, int, 
     return fin(same_ms(got, exp))
 
 
+import types as _types
+
+import codemodder.sarifs as sarifs_mod
+
+TOOLS = ["Semgrep OSS", "CodeQL", "other tool", "semgrep PRO"]
+
+
+class _EPs:
+    def select(self, group=None):
+        return [
+            _types.SimpleNamespace(name="semgrep", load=lambda: semgrep_mod.SemgrepSarifToolDetector),
+            _types.SimpleNamespace(name="codeql", load=lambda: codeql_mod.CodeQLSarifToolDetector),
+        ]
+
+
+def _tool_of(name):
+    return "semgrep" if "semgrep" in name.lower() else ("codeql" if "CodeQL" in name else None)
+
+
+def sarif_tool_detection(n_files: int, two0: bool, two1: bool, t00: int, t01: int, t10: int, t11: int) -> bool:
+    """detect_sarif_tools over 1-2 SARIF files of 1-2 runs each, every run's tool chosen from {Semgrep OSS, CodeQL,
+    another tool, semgrep PRO}: unless the input is rejected loudly (DuplicateToolError, only when some tool has two
+    runs), EVERY run of a registered tool has its file listed under that tool - a file mixing runs of two tools
+    is listed under both - and no file is listed under a tool it has no run of.
+    pre: 1 <= n_files <= 2
+    post: _
+    """
+    spec = [[t00] + ([t01] if two0 else []), [t10] + ([t11] if two1 else [])][:n_files]
+    files = []
+    runs_of = []
+    for i, sels in enumerate(spec):
+        names = [pick(TOOLS, t) for t in sels]
+        data = {"runs": [{"tool": {"driver": {"name": nm}}, "results": []} for nm in names]}
+        vfs.json_file("/s/f%d.sarif" % i, data)
+        files.append(Path("/s/f%d.sarif" % i))
+        runs_of.append([_tool_of(nm) for nm in names])
+    saved, saved_log = sarifs_mod.entry_points, sarifs_mod.logger
+    sarifs_mod.entry_points = lambda: _EPs()
+    sarifs_mod.logger = NoLog()
+    try:
+        got = sarifs_mod.detect_sarif_tools(files)
+    except sarifs_mod.DuplicateToolError:
+        counts = {}
+        for rs in runs_of:
+            for t in rs:
+                if t is not None:
+                    counts[t] = counts.get(t, 0) + 1
+        return fin(any(c >= 2 for c in counts.values()))
+    finally:
+        sarifs_mod.entry_points, sarifs_mod.logger = saved, saved_log
+    ok = True
+    for f, rs in zip(files, runs_of):
+        for t in ("semgrep", "codeql"):
+            listed = str(f) in got.get(t, [])
+            ok = ok and (listed == (t in rs))
+    return fin(ok)
+
+
 def codeql_reader(r1: Tuple[int, int, int, int, int, int], r2: Tuple[int, int, int, int, int, int], tool1: int, tool2: int, shape: int) -> bool:
     """CodeQLResultSet.from_sarif: results of CodeQL runs arrive intact (optional region fields defaulted
     as documented), runs of other tools are ignored without disturbing the rest.
@@ -527,7 +585,7 @@ SPEC = {
     "property": "C12",
     "level": "model_checking",
     "files": [
-        "src/codemodder/result.py",
+        "src/codemodder/result.py", "src/codemodder/sarifs.py",
         "src/codemodder/semgrep.py",
         "src/codemodder/codeql.py",
         "src/codemodder/codemods/semgrep.py",
@@ -549,6 +607,7 @@ SPEC = {
         "codemodder.semgrep.SemgrepResultSet.from_sarif / SemgrepResult.from_sarif / SemgrepLocation.from_sarif",
         "codemodder.codeql.CodeQLResultSet.from_sarif / CodeQLResult.from_sarif / CodeQLLocation.from_sarif",
         "core_codemods.defectdojo.results.DefectDojoResultSet.from_json / DefectDojoResult.from_result",
+        "codemodder.sarifs.detect_sarif_tools + SemgrepSarifToolDetector.detect / CodeQLSarifToolDetector.detect",
     ],
     "bounds": {
         "quick": "<= 2 results per result set, <= 3 sets per merge; rule ids and files are selectors into pools of 2 (every overlap pattern); line/column ints unbounded; <= 2 entries per JSON/SARIF document",
@@ -561,7 +620,7 @@ SPEC = {
         "a Sonar file carries either issues or hotspots, as the Sonar API produces them",
     ],
     "stubs": ["json.load", "open", "logger (empty bodies; logger.exception calls counted and asserted zero)", "per-file loaders in process_loops"],
-    "outside": ["real JSON decoding", "results with several locations", "Sonar files mixing non-empty issues and hotspots", "detect_sarif_tools (covered under C20's run() skeleton)"],
+    "outside": ["real JSON decoding", "results with several locations", "Sonar files mixing non-empty issues and hotspots", "SARIF files of more than 2 runs"],
     "xh": [
         Xh("merge_or", 150, 1200),
         Xh("merge_ior", 150, 1500),
@@ -575,6 +634,7 @@ SPEC = {
         Xh("sonar_reader_pair", 240, 600),
         Xh("semgrep_reader", 120, 400),
         Xh("codeql_reader", 120, 400),
+        Xh("sarif_tool_detection", 120, 300),
         Xh("defectdojo_reader", 90, 300),
         Xh("rule_id_extraction", 60, 120),
         Xh("planted_merge_defect", 60, 120, twin=False, expect="refuted"),
@@ -600,4 +660,6 @@ def warmup():
     for sh in range(4):
         codeql_reader((0, 0, 1, 2, 3, 4), (1, 1, 1, 2, 3, 4), 0, 1, sh)
     defectdojo_reader((0, 0, 1, 0), (1, 1, 2, 1), 2)
+    sarif_tool_detection(2, True, False, 0, 1, 2, 3)
+    sarif_tool_detection(2, True, False, 0, 0, 2, 3)
     rule_id_extraction(False, 1, 1, True)
